@@ -6,23 +6,38 @@ SPEC = "Bng.Spec.C08"
 MON = ["stop-unstarted", "stop-before-start", "dup-stop", "lost-stop", "identifiers", "gigawords"]
 COMPS = [
     V.Component("acct", monitors=MON),
+    # the retry schedule with time: the real AccountingManager under testing/synctest's virtual clock against a real
+    # UDP server (model Bng.AcctBackoff); correspondence only, the monitors judge component acct
+    V.Component("acctretry", kind="gotest", monitors=[]),
 ]
-LEVEL = ("Theorems over a small-step model of radius.AccountingManager in which every API call is split at each "
-         "transmit/persist/remove point of the Go code (the verifCrashPoint markers), the RADIUS server's answer is a "
-         "parameter of every transmitting step and `crash` may follow any step: they quantify over ALL histories, up/down "
-         "vectors and crash points. The model is tied to the real code by differential execution against a real UDP RADIUS "
-         "server on loopback (marker numbers, accepted-record stream, persistence directory and retry map compared op by op), "
-         "and the monitor judges the server-side record stream of the REAL code.")
+LEVEL = ("Theorems over a small-step model of radius.AccountingManager with TWO program counters: every API call "
+         "(StartSession, StopSession, interim, Stop(), recovery) and every step of the background processor is split at each "
+         "transmit/persist/remove point of the Go code (the verifCrashPoint markers), processor steps interleave with the "
+         "API call in progress, the RADIUS server's answer (accepted+acknowledged | not received | accepted but the client "
+         "sees a failure) is a parameter of every transmitting step, and `crash`/`crashTorn` (crash in the middle of a file "
+         "write) may follow any step: the theorems quantify over ALL histories, answer vectors, interleavings and crash points. "
+         "The model is tied to the real code by differential execution against a real UDP RADIUS server on loopback (marker "
+         "numbers, accepted-record stream with acknowledgement flags, persistence directory, retry map and abandoned records "
+         "compared op by op; processor steps injected at the markers of a call in progress), and the monitor judges the "
+         "server-side record stream of the REAL code. The retry schedule with time (back-off, strict NextRetry gate, "
+         "retry budget) is a second model (Bng.AcctBackoff) run against the real code under a virtual clock.")
 ASSUME = [
-    "API calls, processor steps and the shutdown drain are serialised (one call in progress at a time); a crash may "
-    "strike between any two micro-steps of it. Interleavings of the background processor with a call in progress are not modelled",
-    "the retry schedule (NextRetry back-off) and the interim ticker are not modelled: `retry` retries every record of the map "
-    "(the harness configures 1 ns delays so that all are due), `interim` is one due session",
-    "a failed request = the client returns an error at once (closed port, ECONNREFUSED); a request the server accepted is "
-    "acknowledged to the client (no lost replies)",
+    "the harness interleaves WHOLE processor steps (deq / retry, themselves split at their markers 7/8) at the markers "
+    "1-6, 17, 9, 19, 12 of an API call; the model is finer (any ptick between any two ticks). Goroutine preemption inside "
+    "a marker-free region is not exercised; the Go race detector is not part of this check",
+    "the main model has no time: `retry` retries every record of the map (component acct configures 1 ns delays so that "
+    "all are due). Time is covered by component acctretry only for single-thread schedules (no crash, no interleaving); "
+    "the interim ticker is one due session per `interim` op",
+    "answer `down` = the client returns an error at once (closed port, ECONNREFUSED); answer `lost` = the server records "
+    "the request and the client gets an error (generated sequences: the server answers from a refused socket state; "
+    "true silence until the client's timeout is exercised in the corpus only, with a 25 ms timeout)",
     "session ids are not reused (RADIUS requires Acct-Session-Id to be unique); the generators never start an id twice",
-    "os.WriteFile/os.Remove are atomic and durable at their markers; JSON round trip of the persisted structs is exercised "
-    "by the harness, not modelled",
+    "a file write is either complete, absent, or leaves an empty/truncated file that recovery treats as corrupt (crashTorn); "
+    "rename and remove are atomic; there is no fsync in the code and power-loss reordering of rename vs data is not modelled. "
+    "JSON round trip of the persisted structs is exercised by the harness, not modelled",
+    "restart_drains is stated for `sufficiently many` micro-steps after the restart (an explicit bound, not a fairness result)",
+    "the monitor (Bng/Model/AcctSpec.lean) and the Spec theorems are two statements of the property; their equivalence is "
+    "not proved, both are run/proved against the same model",
     "known findings (not repaired): D24, KF-acct-recovery-volatile, KF-acct-start-window — see known_findings.json",
 ]
 
